@@ -220,6 +220,21 @@ CLAIMS['C07'] = (
     'listed in the evidence; Ninja side uses refninja\'s deps=gcc handling (Appendix A)',
     'DESIGN.md §6 C07')
 
+CLAIMS['C16'] = (
+    'exploration',
+    'exhaustive enumeration of the semantic-option table x placements x installed compilers (all singles, all cross-family pairs), real gcc/clang/g++/clang++/gfortran builds, probe programs as oracle',
+    'Every value of the documented semantic options (define, std, warning levels, debug, optimize levels incl. '
+    'link-time, sanitize, static, entry_point; plus pic, opts.lib, pch, an include directory with a space and a '
+    'Fortran program) is configured for gcc, clang, g++ and clang++ in three placements (per-target options, global '
+    'options, per-target combined with a plain global option and an environment flag), alone and in all unordered '
+    'pairs of values from different option families. Each case is built by the real make with the real compiler and '
+    'the documented effect is observed on the result: probe program output (macros, __STDC_VERSION__/__cplusplus, '
+    '__OPTIMIZE__, ASan), compiler diagnostics (warning levels, -Werror failing the build), readelf/nm/file '
+    '(debug sections, LTO payload, static linking, ELF entry point).',
+    'options or option pairs the compiler rejects in the spelling of its own manual are excluded at run time and '
+    'listed; pthread/system includes need package() (mopack is broken in the image)',
+    'DESIGN.md §6 C16')
+
 # --- more claims are appended above this line ---
 NOT_YET = 'check not built yet in this session (see DESIGN.md §10 build order); not claimed until it is'
 NOT_APPLICABLE = {}
